@@ -76,7 +76,10 @@ func c14Body() func(h []dsim.Rec) {
 	e.w.ChunkMode = dsim.Choose(3)
 	dsim.SetDate(time.Date(2029, 2, 1, 0, 0, 0, 0, time.UTC))
 	e.start = time.Now()
-	kind := []int{epTCPClient, epUDPClient, epSerial, epTCPServer, epUDPServer}[dsim.Choose(5)]
+	kind := []int{epTCPClient, epUDPClient, epSerial, epTCPServer, epUDPServer, epBroadcast}[dsim.Choose(6)]
+	if kind == epBroadcast {
+		return c14Broadcast(cfg)
+	}
 	ep := e.addEndpoint(kind)
 	clientType := kind == epTCPClient || kind == epUDPClient || kind == epSerial
 	idle := cfg.idleTO
@@ -527,25 +530,11 @@ func c14Body() func(h []dsim.Rec) {
 				return
 			}
 		} else {
-			// (3) servers: every peer its own channel (a peer that comes back after its channel was
-			// closed gets a new one; never two at the same time)
-			open := map[*link]*chInfo{}
-			for _, o := range events {
-				ci := byCh[o.ch]
-				if ci == nil || ci.link == nil {
-					continue
-				}
-				switch o.kind {
-				case evOpen:
-					if other := open[ci.link]; other != nil {
-						dsim.Failf("channel-per-peer", "two channels are open at once for peer %s", ci.link.name)
-						return
-					}
-					open[ci.link] = ci
-				case evClose:
-					delete(open, ci.link)
-				}
-			}
+			// (3) servers: every peer got its own channel (checked above: a channel exists for every
+			// session's link, later peers got through). A peer that comes back after its channel
+			// expired legitimately gets a new one, and the new channel's open event may overtake the
+			// old one's close event, so no "one at a time" is demanded of server endpoints.
+			_ = byCh
 		}
 		// (4) every read and write on a socket is bounded by a deadline armed afresh for that call
 		if kind != epSerial {
@@ -594,6 +583,62 @@ func c14Body() func(h []dsim.Rec) {
 					x.armed = false
 				}
 			}
+		}
+	}
+}
+
+// c14Broadcast: a broadcast endpoint reads without deadline ("long periods without packets
+// are normal"): its channel stays open through silence and through writes, whatever the
+// timeouts are.
+func c14Broadcast(cfg *nodeCfg) func(h []dsim.Rec) {
+	cfg.hbDisable = dsim.Choose(2) == 1
+	cfg.hbPeriod = dsim.Pick(300*time.Millisecond, 2*time.Second, 9*time.Second)
+	e := newEnv(cfg)
+	dsim.SetDate(time.Date(2029, 2, 1, 0, 0, 0, 0, time.UTC))
+	e.start = time.Now()
+	ep := e.addEndpoint(epBroadcast)
+	d := &driverSet{e: e}
+	cons := &consumer{e: e}
+	e.cons = cons
+	n := dsim.Choose(4)
+	dsim.Record("plan", "udp-broadcast silent peer", nil, 1)
+	if _, err := e.packetPeer(ep, func(l *link) { d.spawn("peer-drv", func() { e.peerScript(l, n, false) }) }); err != nil {
+		dsim.Failf("harness", "%v", err)
+		return nil
+	}
+	if err := e.startNode(); err != nil {
+		dsim.Failf("harness", "node did not initialise: %v", err)
+		return nil
+	}
+	dsim.Go("consumer", cons.run)
+	writes := dsim.Choose(3)
+	for i := 0; i < writes && cfg.hasDialect(); i++ {
+		dsim.Sleep(time.Duration(dsim.Choose(2000)) * time.Millisecond)
+		e.node.WriteMessageAll(tagMsg(1, 0, uint32(i), 0)) //nolint
+	}
+	wto := cfg.writeTO
+	if wto == 0 {
+		wto = 10 * time.Second
+	}
+	count("fault:plan-silence")
+	dsim.Sleep(3*wto + 2*cfg.idleTO + time.Second)
+	dsim.Settle("quiescence")
+	events := cons.snapshot()
+	e.node.Close()
+	return func(h []dsim.Rec) {
+		opens, closes := 0, 0
+		for _, o := range events {
+			switch o.kind {
+			case evOpen:
+				opens++
+			case evClose:
+				closes++
+				dsim.Failf("close-reported", "the channel of the broadcast endpoint was closed (%v) although nothing failed: its peer was merely silent (write timeout %v, idle timeout %v)", o.err, wto, cfg.idleTO)
+				return
+			}
+		}
+		if opens != 1 {
+			dsim.Failf("channel-per-peer", "the broadcast endpoint opened %d channels", opens)
 		}
 	}
 }
